@@ -62,6 +62,12 @@ def gen_harness(ext, path):
                      '  __CPROVER_assert(verif_thrown == !(index >= 0 && index < size), "O_index: an execution error is raised exactly for an index outside the declared array (negative or >= size)");\n'
                      '  __CPROVER_assert(verif_thrown || verif_used, "O_index: an index inside the array reaches the element access");\n}\n' % {'f': g['function']})
         entries.append(('h_index_%s' % g['function'], 'INDEX_' + g['function'], 2))
+    if ext.get('array_len_guard'):
+        parts.append('\nunsigned long nondet_ulong_al(void);\nunsigned long wit_size, wit_len;\nvoid h_arrlen_setVariable(void) {\n  size_t size = nondet_ulong_al(), len = nondet_ulong_al();\n  wit_size = size; wit_len = len;\n'
+                     '  verif_thrown = 0; verif_used = 0;\n  arrlen_setVariable(size, len);\n  __CPROVER_assert(0, "CANARY returns");\n'
+                     '  __CPROVER_assert(verif_thrown == (len > size), "O_index: assigning a whole array to a declared array raises an execution error exactly when it has more elements than declared");\n'
+                     '  __CPROVER_assert(verif_thrown || verif_used, "O_index: an array that fits reaches the store");\n}\n')
+        entries.append(('h_arrlen_setVariable', 'ARRLEN', 2))
     parts.append('\nunsigned long nondet_ulong(void);\nunsigned long wit_n, wit_idx;\nvoid h_data_subscript(void) {\n  size_t index = nondet_ulong();\n  verif_n = nondet_ulong();\n  verif_deref = 0;\n'
                  '  wit_n = verif_n; wit_idx = index;\n  data_subscript(index);\n  __CPROVER_assert(0, "CANARY returns");\n'
                  '  __CPROVER_assert(verif_deref, "O_elem: Data::operator[](size_t) returns an element");\n}\n')
@@ -168,6 +174,46 @@ def native_replay(tok, n, a, b, wd):
     text = 'document %s: expr "%s" with a=%d b=%d, spec expects %s; test-state-pass exit=%s %s' % (
         path, expr, a, b, expected, rc, ' / '.join(tail)[-300:])
     return (rc != 0), text
+
+
+DOC_AL = '''<?xml version="1.0" encoding="UTF-8"?>
+<scxml xmlns="http://www.w3.org/2005/07/scxml" initial="s0" datamodel="promela" version="1.0">
+  <datamodel>
+    <data id="arr" type="int[%(size)d]">%(content)s</data>
+  </datamodel>
+  <state id="s0">
+    <onentry><raise event="done"/></onentry>
+    <transition event="error.execution" target="%(on_error)s"/>
+    <transition event="done" cond="%(cond)s" target="%(on_value)s"/>
+    <transition event="*" target="fail"/>
+  </state>
+  <final id="pass"/>
+  <final id="fail"/>
+</scxml>
+'''
+
+
+def native_replay_arrlen(size, length, wd):
+    """<data id="arr" type="int[size]">[1,..,length]</data> run by the real test-state-pass: an error exactly for length > size. returns (reproduced, text)"""
+    exe, err = build_native()
+    if not exe:
+        return False, 'cannot build test-state-pass: ' + err
+    length = max(1, length)
+    content = '[' + ','.join(str(i + 1) for i in range(length)) + ']'
+    if length > size:
+        on_error, on_value, cond, expected = 'pass', 'fail', 'true', 'an execution error'
+    else:
+        on_error, on_value, cond, expected = 'fail', 'pass', 'arr[%d] == %d' % (length - 1, length), 'no error and arr[%d] == %d' % (length - 1, length)
+    os.makedirs(wd, exist_ok=True)
+    path = os.path.join(wd, 'replay_arrlen.scxml')
+    open(path, 'w').write(DOC_AL % {'size': size, 'content': content, 'on_error': on_error, 'on_value': on_value, 'cond': esc(cond)})
+    try:
+        p = subprocess.run([exe, path], capture_output=True, text=True, timeout=120, errors='replace')
+        rc = p.returncode
+        tail = (p.stdout + p.stderr).strip().splitlines()[-4:]
+    except subprocess.TimeoutExpired:
+        rc, tail = 'timeout', []
+    return (rc != 0), 'document %s: int[%d] initialised with %d elements, expects %s; test-state-pass exit=%s %s' % (path, size, length, expected, rc, ' / '.join(tail)[-300:])
 
 
 DOC_IDX = '''<?xml version="1.0" encoding="UTF-8"?>
@@ -336,6 +382,10 @@ def run(tier):
     for g in ext.get('index_guards', []):
         part.functions.append({'function': 'PromelaDataModel::%s, case PML_VAR_ARRAY (guards on the array index)' % g['function'], 'file': '%s:%d' % (pml_extract.SRC, g['line']),
                                'route': 'R3 extract (slice) -> idx_%s in work/pml/pml_extracted.c' % g['function'], 'dropped': g['dropped']})
+    if ext.get('array_len_guard'):
+        g = ext['array_len_guard']
+        part.functions.append({'function': 'PromelaDataModel::setVariable, case PML_NAME (guard on the length of an assigned array)', 'file': '%s:%d' % (pml_extract.SRC, g['line']),
+                               'route': 'R3 extract (slice) -> arrlen_setVariable in work/pml/pml_extracted.c', 'dropped': g['dropped']})
     part.extra['arms_not_extracted'] = ext['not_extracted']
     part.extra['operator_tokens_without_arm'] = ext['missing']
     part.extra['arms_whose_operand_order_is_left_to_the_compiler'] = [a['token'] for a in ext['arms'] if a.get('operand_order_left_to_compiler')]
@@ -395,6 +445,21 @@ def run(tier):
                 part.violations.append({'obligation': '%s %s' % (r['name'], f['property']), 'replay': path, 'reproduced': ok,
                                         'what': '%s | list length %s, index %s | %s' % (f['description'], n_, idx_, text), 'token': tok, 'arity': 2, 'kind': 'elem', 'v1': ridx, 'v2': ridx + 1})
                 continue
+            if tok == 'ARRLEN':
+                sz = ln = None
+                for st in f.get('trace') or []:
+                    if st.get('lhs') == 'wit_size' and st.get('binary'):
+                        sz = int(st['binary'], 2)
+                    if st.get('lhs') == 'wit_len' and st.get('binary'):
+                        ln = int(st['binary'], 2)
+                d = max(-2, min(2, (ln - sz))) if sz is not None and ln is not None else 0
+                ok, text = native_replay_arrlen(3, 3 + d, wd)
+                payload = {'property': 'C17', 'engine': 'pmlarms', 'obligation': f['property'], 'description': f['description'], 'token': tok, 'arity': 2,
+                           'declared_size': sz, 'assigned_length': ln, 'v1': 3, 'v2': 3 + d, 'native_replay_output': text}
+                path = common.write_replay('C17', '%s_%s' % (r['name'], f['property']), payload)
+                part.violations.append({'obligation': '%s %s' % (r['name'], f['property']), 'replay': path, 'reproduced': ok,
+                                        'what': '%s | declared %s, assigned %s | %s' % (f['description'], sz, ln, text), 'token': tok, 'arity': 2, 'kind': 'arrlen', 'v1': 3, 'v2': 3 + d})
+                continue
             if tok and tok.startswith('INDEX_'):
                 fn = tok[len('INDEX_'):]
                 if v1 is None:
@@ -427,6 +492,8 @@ def replay(path):
         if not ok:
             ok, t2 = native_replay_elem(d['v1'], os.path.join(common.WORK, 'pml'))
             text += ' || ' + t2
+    elif d['token'] == 'ARRLEN':
+        ok, text = native_replay_arrlen(d['v1'], d['v2'], os.path.join(common.WORK, 'pml'))
     elif d['token'].startswith('INDEX_'):
         ok, text = native_replay_index(d['token'][len('INDEX_'):], d['v1'], d['v2'], os.path.join(common.WORK, 'pml'))
     else:
